@@ -38,6 +38,23 @@ fn vnow() -> u64 {
     }
 }
 
+/// The production binder plus a tap: a second handle on every uplink socket the loop creates, so that the
+/// harness can make the kernel refuse sends on it (shutdown of the write side) -- a send failure on the real
+/// socket, inside the real loop, through the loop's own injection point for egress binding.
+struct TapBinder {
+    taps: Arc<std::sync::Mutex<std::collections::HashMap<std::net::IpAddr, socket2::Socket>>>,
+}
+
+impl UplinkBinder for TapBinder {
+    fn bind(&self, sock: &socket2::Socket, ip: std::net::IpAddr) -> anyhow::Result<()> {
+        SourceIpBinder.bind(sock, ip)?;
+        if let Ok(dup) = sock.try_clone() {
+            self.taps.lock().unwrap().insert(ip, dup);
+        }
+        Ok(())
+    }
+}
+
 #[derive(Clone, Copy, PartialEq, Debug)]
 enum Path {
     Up,
@@ -60,6 +77,7 @@ pub struct LoopSim {
     client: StdUdp,
     srt_port: u16,
     config: srtla_send::DynamicConfig,
+    taps: Arc<std::sync::Mutex<std::collections::HashMap<std::net::IpAddr, socket2::Socket>>>,
     work: String,
     n: usize,
     profile: String,
@@ -86,6 +104,10 @@ pub struct LoopSim {
     timeout_ms: u64,
     idle_left: u32,
     next_amnesia: u64,
+    /// a flapping link: (link, the address it failed on, delay) -> once it is registered again from a new
+    /// socket, fail it again `delay` ms later (inside the 5 s retry interval)
+    refail: Option<(usize, Option<SocketAddr>, u64)>,
+    refail_at: Option<u64>,
     classic_since: Option<u64>,
     last_ack_rx: u64,
     last_ka: Vec<u64>,
@@ -121,11 +143,12 @@ impl LoopSim {
         let _ = socket2::SockRef::from(&client).set_recv_buffer_size(8 << 20);
         Self {
             rt, task: None, receiver, rport, client, srt_port: 0, config: srtla_send::DynamicConfig::new(),
+            taps: Default::default(),
             work: std::env::temp_dir().to_string_lossy().to_string(), n: 2, profile: "steady".into(),
             path: vec![], rtt: vec![], group: None, registered: vec![], pending: VecDeque::new(), ack_buf: vec![],
             rx_seqs: Default::default(), rx_count: 0, last_reply_at: vec![], cur_addr: vec![],
             next_seq: 5000, pkt_ctr: 0, client_idx: 0, steps_done: 0, steps_total: 3000, victim_down_at: None,
-            victim_repaired: false, timeout_ms: 5000, idle_left: 0, next_amnesia: 0, classic_since: None, last_ack_rx: 0, last_ka: vec![],
+            victim_repaired: false, timeout_ms: 5000, idle_left: 0, next_amnesia: 0, refail: None, refail_at: None, classic_since: None, last_ack_rx: 0, last_ka: vec![],
             c: Default::default(),
         }
     }
@@ -381,6 +404,8 @@ impl Engine for LoopSim {
         self.victim_down_at = None;
         self.victim_repaired = false;
         self.idle_left = 0;
+        self.refail = None;
+        self.refail_at = None;
         self.next_amnesia = T0 + 8_000;
         self.last_ack_rx = 0;
         self.last_ka = vec![0; self.n];
@@ -407,7 +432,8 @@ impl Engine for LoopSim {
                 for attempt in 0..8 {
                     self.srt_port = StdUdp::bind("[::]:0").and_then(|s| s.local_addr()).map(|a| a.port()).expect("free port");
                     let (path, rport, port, config) = (self.ips_path(), self.rport, self.srt_port, self.config.clone());
-                    let binder: Arc<dyn UplinkBinder> = Arc::new(SourceIpBinder);
+                    self.taps.lock().unwrap().clear();
+                    let binder: Arc<dyn UplinkBinder> = Arc::new(TapBinder { taps: self.taps.clone() });
                     let task = self.rt.spawn(async move {
                         srtla_send::sender::run_sender_with_config(
                             port, "127.0.0.1", rport, &path, config, srtla_send::stats::SharedStats::new(),
@@ -476,6 +502,15 @@ impl Engine for LoopSim {
                 line["d"] = json!(0);
                 self.bump("path_changes");
             }
+            "SendFail" => {
+                // from now on the kernel refuses every send on link l's current socket (EPIPE)
+                let l = geti(ev, "l") as usize - 1;
+                let ip = std::net::IpAddr::V4(std::net::Ipv4Addr::new(127, 0, 0, 10 + l as u8));
+                let ok = self.taps.lock().unwrap().get(&ip).map(|s| s.shutdown(std::net::Shutdown::Write).is_ok());
+                line["done"] = json!(ok == Some(true));
+                line["d"] = json!(0);
+                self.bump("send_failures_injected");
+            }
             "Amnesia" => {
                 // the receiver restarts: it knows no group and no link any more
                 self.group = None;
@@ -532,6 +567,35 @@ impl Engine for LoopSim {
                     self.victim_repaired = true;
                     return Some(json!({"ev": "SetPath", "l": victim + 1, "p": "up"}));
                 }
+            }
+        }
+        if self.profile == "sendfail" {
+            let up = self.registered.iter().filter(|r| r.is_some()).count() == self.n;
+            if let Some((l, old, delay)) = self.refail {
+                if self.refail_at.is_none() && self.registered[l].is_some() && self.registered[l] != old {
+                    self.refail_at = Some(now + delay);
+                }
+                if self.refail_at.is_some_and(|t| now >= t) {
+                    self.refail = None;
+                    self.refail_at = None;
+                    self.bump("flap_failures_injected");
+                    return Some(json!({"ev": "SendFail", "l": l + 1}));
+                }
+            }
+            if up && self.refail.is_none() && rng.random_range(0..300) == 0 {
+                let l = rng.random_range(1..=self.n);
+                if rng.random_range(0..2) == 0 {
+                    self.refail = Some((l - 1, self.registered[l - 1], rng.random_range(300..3000)));
+                }
+                return Some(json!({"ev": "SendFail", "l": l}));
+            }
+            if rng.random_range(0..3) == 0 {
+                let d = rng.random_range(20..300);
+                let d = match self.pending.iter().map(|r| r.at).min() {
+                    Some(at) if at > now => d.min(at - now),
+                    _ => d,
+                };
+                return Some(json!({"ev": "Advance", "d": d.max(1)}));
             }
         }
         if self.profile == "amnesia" {
